@@ -69,7 +69,7 @@ func c20class(host string, bracket bool, port string) string {
 	return k + "|port"
 }
 
-func c20one(c *hx.Ctx, host string, bracket bool, port string, component bool) {
+func c20one(c *hx.Ctx, host string, bracket bool, port string, component bool, viaNewClient bool) {
 	in := host
 	if bracket {
 		in = "[" + host + "]"
@@ -78,7 +78,16 @@ func c20one(c *hx.Ctx, host string, bracket bool, port string, component bool) {
 		in += ":" + port
 	}
 	var tr Transport
-	if component {
+	if viaNewClient {
+		cfg := Config{TransportConfiguration: TransportConfiguration{Address: in}, Jid: "user@example.org/r", Credential: Password("x")}
+		cl, err := NewClient(&cfg, NewRouter(), func(error) {})
+		if err != nil || cl == nil {
+			c.Eval("err")
+			c.Fail("C20|newclient-failed|"+c20class(host, bracket, port), in, "NewClient with address %q failed: %v", in, err)
+			return
+		}
+		tr = cl.transport
+	} else if component {
 		var err error
 		tr, err = NewComponentTransport(TransportConfiguration{Address: in, Domain: "d"})
 		if err != nil {
@@ -127,7 +136,10 @@ func TestVerifC20(t *testing.T) {
 		scs = append(scs, hx.Scenario{Name: who + "/dns+ipv4", Run: func(c *hx.Ctx) {
 			for _, h := range append(append([]string{}, dns...), v4...) {
 				for _, p := range ports {
-					c20one(c, h, false, p, comp)
+					c20one(c, h, false, p, comp, false)
+					if !comp {
+						c20one(c, h, false, p, false, true)
+					}
 				}
 			}
 			c.Sample(map[string]string{"in": "a-b.xn--p1ai.:5223", "who": who})
@@ -135,10 +147,16 @@ func TestVerifC20(t *testing.T) {
 		scs = append(scs, hx.Scenario{Name: who + "/ipv6", Run: func(c *hx.Ctx) {
 			for _, h := range v6 {
 				for _, p := range ports {
-					c20one(c, h, true, p, comp)
+					c20one(c, h, true, p, comp, false)
+					if !comp {
+						c20one(c, h, true, p, false, true)
+					}
 				}
 				// bare IPv6 directly followed by :port is ambiguous and excluded by the property
-				c20one(c, h, false, "", comp)
+				c20one(c, h, false, "", comp, false)
+				if !comp {
+					c20one(c, h, false, "", false, true)
+				}
 			}
 			c.Sample(map[string]string{"in": "[::ffff:1.2.3.4]:5223 and 1:ab::ABCD", "who": who})
 		}})
@@ -149,7 +167,7 @@ func TestVerifC20(t *testing.T) {
 			ws   bool
 		}
 		cases := []sc{
-			{"ws:", true}, {"wss:", true}, {"ws://h/p", true}, {"wss://h:443/p", true}, {"ws://[::1]:80/x", true}, {"wss://a.b", true},
+			{"ws:", true}, {"wss:", true}, {"ws://h/p", true}, {"wss://h:443/p", true}, {"ws://[::1]:80/x", true}, {"wss://a.b", true}, {"ws://localhost:5280/xmpp-websocket", true}, {"ws://[::1]/x", true}, {"wss://h:1/a:b", true},
 			{"http://h", false}, {"xmpp:h", false}, {"tcp://h:1", false}, {"h", false}, {"ws", false}, {"wss", false}, {"w:s", false},
 			{"WS://h", false}, {"xws://h", false}, {"h.ws:5222", false}, {"wsx.example:5222", false}, {"ws.example.org", false},
 		}
@@ -166,6 +184,26 @@ func TestVerifC20(t *testing.T) {
 			}
 			if isWS && tr.(*WebsocketTransport).Config.Address != k.addr {
 				c.Fail("C20|ws-address-changed", k.addr, "websocket address %q became %q", k.addr, tr.(*WebsocketTransport).Config.Address)
+			}
+			// the same through NewClient, which is how applications get a transport
+			{
+				cfg := Config{TransportConfiguration: TransportConfiguration{Address: k.addr}, Jid: "user@example.org/r", Credential: Password("x")}
+				cl, err := NewClient(&cfg, NewRouter(), func(error) {})
+				if err != nil || cl == nil {
+					c.Fail("C20|newclient-failed|scheme", k.addr, "NewClient with address %q failed: %v", k.addr, err)
+				} else {
+					wt, isWS2 := cl.transport.(*WebsocketTransport)
+					c.Eval(fmt.Sprintf("newclient %q %T", k.addr, cl.transport))
+					if k.ws && !isWS2 {
+						c.Fail("C20|ws-scheme-not-websocket|via-newclient", k.addr, "NewClient with address %q uses %T, want *WebsocketTransport", k.addr, cl.transport)
+					}
+					if !k.ws && isWS2 {
+						c.Fail("C20|non-ws-not-xmpp|via-newclient", k.addr, "NewClient with address %q uses %T", k.addr, cl.transport)
+					}
+					if isWS2 && wt.Config.Address != k.addr {
+						c.Fail("C20|ws-address-changed|via-newclient", k.addr, "websocket address %q became %q", k.addr, wt.Config.Address)
+					}
+				}
 			}
 			ct, err := NewComponentTransport(TransportConfiguration{Address: k.addr, Domain: "d"})
 			c.Eval(fmt.Sprintf("component %q %T %v", k.addr, ct, err))
